@@ -76,7 +76,10 @@ class DecodeMobileAlloc(Contract):
     def requires(self, c):
         if c.mode != "verify":
             raise Unsupported("gsm48_decode_mobile_alloc contract is only used for verification (no caller is verified)")
-        return [("case_si4", c.a.si4 != 0 if c.case[1] else c.a.si4 == 0)]
+        # the statement's quantifier is the domain: cell allocations of 0..64 channels (what a decoder does with a larger one - truncate,
+        # reject - is free)
+        return [("case_si4", c.a.si4 != 0 if c.case[1] else c.a.si4 == 0),
+                ("cell_allocation_of_at_most_64_channels", S.rank(c.memo["mask0"], self.SERV, S.NARFCN) <= S.MAX_HOPPING)]
 
     def assigns(self, c):
         r = [c.region(c.a.hopping, count=S.MAX_HOPPING, whole=True), c.region(c.a.hopp_len)]
@@ -210,8 +213,11 @@ class DecodeMobileAlloc(Contract):
         m = c.memo
         mask0, ma, ln, Lb, n = m["mask0"], m["ma"], c.a.len, m["L"], m["n"]
         SERV, HOPP = self.SERV, self.HOPP
-        posts = [("longer_than_8_octets_rejected", (ln > S.MAX_OCTETS) == (ret == -self.EINVAL)),
-                 ("otherwise_returns_0", z3.Implies(ln <= S.MAX_OCTETS, ret == 0))]
+        # return value: an error (negative) exactly for bitmaps longer than 8 octets.  The statement is silent about the value returned on
+        # success and about which negative value reports the error; both callers in the tree (sysinfo.c: gsm48_decode_sysinfo1..,
+        # gsm48_rr.c: gsm48_rr_render_ma / channel description) ignore the result.  [was: == -EINVAL / == 0]
+        posts = [("longer_than_8_octets_rejected", (ln > S.MAX_OCTETS) == (ret < 0)),
+                 ("otherwise_returns_non_negative", z3.Implies(ln <= S.MAX_OCTETS, ret >= 0))]
         hop = new.cell(c.a.hopping)
         h = new.get(c.a.hopp_len)
         posts.append(("rejected_leaves_outputs_untouched",
